@@ -470,8 +470,8 @@ theorem C11_rows_use_own_operation (cfg : Cfg) (mesh : List Cell) (order : Optio
         let ordered : List KCell := match order with
           | none => ks
           | some idx => let a := ks.toArray; idx.filterMap fun i => a[i]?
-        let evs := ordered.flatMap (writes g nl)
-        refine ⟨if useArr then execArr (nl * g.nz * g.ny * g.nx) evs else exec (initMem g nl) evs, fun l hl => ?_⟩
+        let evs := (ordered.map (withCover nl)).flatMap (writes g (nl + 1))
+        refine ⟨if useArr then execArr ((nl + 1) * g.nz * g.ny * g.nx) evs else exec (initMem g (nl + 1)) evs, fun l hl => ?_⟩
         simp only [List.length_map, List.length_range] at hl
         constructor
         · simp only [List.getElem?_map, List.getElem?_range hl, Option.map_some]; rfl
